@@ -3,6 +3,20 @@
 package all
 
 import (
-	_ "verif/harness/internal/props/c15"
+	"verif/harness/internal/ev"
+	"verif/harness/internal/props/c15"
+	c15mysql "verif/harness/internal/props/c15/mysql"
 	_ "verif/harness/internal/props/c15/proxy"
 )
+
+// the wire layers of C15: PostgreSQL (plugged in by props/c15/proxy's init, which runs before this one), then MySQL
+// (Acra's SQL dialect is a process global, so the two run one after the other)
+func init() {
+	pg := c15.ProxyLayer
+	c15.ProxyLayer = func(r *ev.Run) {
+		if pg != nil {
+			pg(r)
+		}
+		c15mysql.Layer(r)
+	}
+}
